@@ -176,7 +176,16 @@ class DSDLDefinition(ReadableDSDLFile):
                 # The root is a leading part of the relative target, so the target is relative to the same directory
                 # as the root (the current working directory) and shall not be welded to the parent of the root again.
                 dsdl_path_resolved = _resolve_directory(dsdl_path)
-        return cls(dsdl_path_resolved, root_path)
+        try:
+            return cls(dsdl_path_resolved, root_path)
+        except ValueError:
+            # The inferred root is only a lexical prefix of the target (e.g., the target path contains ".." components
+            # or traverses a symbolic link that leads elsewhere), so the file does not actually reside under it.
+            raise PathInferenceError(
+                f"{str(dsdl_path)} is not located under the inferred root namespace directory {str(root_path)}",
+                dsdl_path,
+                valid_dsdl_roots,
+            ) from None
 
     def __init__(self, file_path: Path, root_namespace_path: Path):
         """ """
